@@ -35,10 +35,17 @@ Print Assumptions c17_recv_eof_before_data_refuted.
 (* fixed code: once any Recv has returned io.EOF the queue is closed and empty in every later
    state, and everything ever sent has been delivered *)
 Theorem c17_data_before_eof : forall c size progs x,
-  fix_repoll c = true -> wf_progs progs = true -> reachable c size progs x ->
-  forall i t, nth_error (ths x) i = Some t -> In (KRecv, RErr eEOF) (rets t) ->
-    closed (shd x) = true /\ buf (shd x) = [] /\ sent (shd x) = map snd (taken (shd x)).
-Proof. exact data_before_eof. Qed.
+  wf_progs progs = true -> reachable c size progs x ->
+  forall i t, nth_error (ths x) i = Some t ->
+    (fix_repoll c = true -> In (KRecv, RErr eEOF) (rets t) ->
+       closed (shd x) = true /\ buf (shd x) = [] /\ sent (shd x) = map snd (taken (shd x))) /\
+    (* and a Recv never reports success without an item *)
+    (forall e, In (KRecv, RErr e) (rets t) -> e <> 0%N).
+Proof.
+  intros c size progs x Hw Hr i t Hn. split.
+  - intros Hc. exact (data_before_eof c size progs x Hc Hw Hr i t Hn).
+  - intros e. exact (recv_error_not_nil c size progs x Hw Hr i t e Hn).
+Qed.
 Print Assumptions c17_data_before_eof.
 
 (* the regression schedule on the fixed model: the same interleaving now delivers the item *)
@@ -47,12 +54,6 @@ Example c17_data_before_eof_regression :
       [T 0; T 1; T 1; T 1; T 1; T 1; T 1; T 1; T 1; T 1; T 0; T 0] = Some x /\
     map rets (ths x) = [[(KRecv, RItem 7)]; [(KSend, RErr eNil); (KClose, RErr eNil)]].
 Proof. eexists. split; vm_compute; reflexivity. Qed.
-
-Theorem c17_recv_error_not_nil : forall c size progs x,
-  wf_progs progs = true -> reachable c size progs x ->
-  forall i t e, nth_error (ths x) i = Some t -> In (KRecv, RErr e) (rets t) -> e <> 0%N.
-Proof. exact recv_error_not_nil. Qed.
-Print Assumptions c17_recv_error_not_nil.
 
 (* ------------------------------------------------------------------ close *)
 (* exactly one Close call reports nil (and only when the queue really is closed), every other EOF *)
@@ -93,14 +94,11 @@ Print Assumptions c17_no_stuck_after_close.
 (* every transition (of any thread, of the timer) decreases the measure, so every schedule from x
    has at most [measure x] steps, and a thread's own steps decrease its own measure: each call
    finishes within a bounded number of its own steps *)
-Theorem c17_steps_bounded : forall c x l x', run c x l = Some x' -> length l + measure x' <= measure x.
-Proof. exact run_bounded. Qed.
+Theorem c17_steps_bounded :
+  (forall c x l x', run c x l = Some x' -> length l + measure x' <= measure x) /\
+  (forall c i ch s t s' t', tstep c i ch s t = Some (s', t') -> tmeasure t' < tmeasure t + (tw s - tw s')).
+Proof. split; [exact run_bounded|exact own_step_decreases]. Qed.
 Print Assumptions c17_steps_bounded.
-
-Theorem c17_own_steps_bounded : forall c i ch s t s' t',
-  tstep c i ch s t = Some (s', t') -> tmeasure t' < tmeasure t + (tw s - tw s').
-Proof. exact own_step_decreases. Qed.
-Print Assumptions c17_own_steps_bounded.
 
 (* hence (with the two above): after Close, whenever nothing can move any more, every call has
    returned.  Together with c17_steps_bounded: every maximal schedule from a closed state is
@@ -137,18 +135,16 @@ Print Assumptions c17_close_releases_blocked_send_refuted.
 (* ------------------------------------------------------------------ deadlines *)
 (* once the deadline channel is closed (expiry or Cancel) every caller parked in a blocking select
    can step, and what it will report is a non-nil error (or a queued item) *)
-Theorem c17_deadline_releases : forall c size progs x,
-  wf_progs progs = true -> reachable c size progs x -> cur_closed (shd x) = true ->
-  forall i t, nth_error (ths x) i = Some t ->
-    (exists g, tpc t = R_select g) \/ (exists v g, tpc t = S_select v g) ->
-    enabled c x (Th i false) = true /\ derr (shd x) <> 0%N.
-Proof. exact deadline_releases. Qed.
+Theorem c17_deadline_releases :
+  (forall c size progs x,
+   wf_progs progs = true -> reachable c size progs x -> cur_closed (shd x) = true ->
+   forall i t, nth_error (ths x) i = Some t ->
+     (exists g, tpc t = R_select g) \/ (exists v g, tpc t = S_select v g) ->
+     enabled c x (Th i false) = true /\ derr (shd x) <> 0%N) /\
+  (* the timer callback closes the deadline channel with os.ErrDeadlineExceeded *)
+  (forall c x x', step c x TimerRun = Some x' -> cur_closed (shd x') = true /\ derr (shd x') = eDE).
+Proof. split; [exact deadline_releases|exact timer_expiry]. Qed.
 Print Assumptions c17_deadline_releases.
-
-Theorem c17_timer_expiry_closes : forall c x x', step c x TimerRun = Some x' ->
-  cur_closed (shd x') = true /\ derr (shd x') = eDE.
-Proof. exact timer_expiry. Qed.
-Print Assumptions c17_timer_expiry_closes.
 
 (* non-vacuity: Send blocked on a full queue (holding the mutex) is released by a deadline set
    from another thread and reports os.ErrDeadlineExceeded *)
@@ -166,30 +162,32 @@ Local Open Scope nat_scope.
 (* for every number of goroutines calling Handshake/Read/Write/Close in any order, live or dead
    peer, with or without a handshake timeout: the handshake body is entered at most once *)
 Theorem c17_handshake_runs_once : forall pe tm cr progs x,
-  creachable pe tm cr progs x -> hs_runs (csd x) <= 1.
-Proof. exact handshake_runs_once. Qed.
+  creachable pe tm cr progs x ->
+  hs_runs (csd x) <= 1 /\
+  (* and Handshake reports nil only when the session exists *)
+  (forall i t, nth_error (cths x) i = Some t -> In (CHandshake, 0%N) (crets t) -> handle_set (csd x) = true).
+Proof.
+  intros pe tm cr progs x Hr. split.
+  - exact (handshake_runs_once pe tm cr progs x Hr).
+  - exact (handshake_nil_means_session pe tm cr progs x Hr).
+Qed.
 Print Assumptions c17_handshake_runs_once.
-
-Theorem c17_handshake_nil_means_session : forall pe tm cr progs x, creachable pe tm cr progs x ->
-  forall i t, nth_error (cths x) i = Some t -> In (CHandshake, 0%N) (crets t) -> handle_set (csd x) = true.
-Proof. exact handshake_nil_means_session. Qed.
-Print Assumptions c17_handshake_nil_means_session.
 
 (* Close is idempotent: the socket is closed at most once and every caller — the elected one and
    every waiter — reports the result of that one close *)
 Theorem c17_close_idempotent_same_result : forall pe tm cr progs x, creachable pe tm cr progs x ->
-  conn_closes (csd x) <= 1 /\
-  forall i t r, nth_error (cths x) i = Some t -> In (CClose, r) (crets t) -> r = cr.
-Proof. exact close_same_result. Qed.
+  (conn_closes (csd x) <= 1 /\
+   forall i t r, nth_error (cths x) i = Some t -> In (CClose, r) (crets t) -> r = cr) /\
+  (* completion channels publish: results are stored before the channel is closed *)
+  ((close_done (csd x) = true -> close_err (csd x) = Some cr /\ conn_closed (csd x) = true /\ is_closing (cstate (csd x)) = true) /\
+   (hs_done (csd x) = true -> hs_runs (csd x) = 1) /\
+   (cstate (csd x) = sError -> cerr (csd x) <> 0%N)).
+Proof.
+  intros pe tm cr progs x Hr. split.
+  - exact (close_same_result pe tm cr progs x Hr).
+  - exact (results_published_before_signal pe tm cr progs x Hr).
+Qed.
 Print Assumptions c17_close_idempotent_same_result.
-
-(* completion channels publish: results are stored before the channel is closed *)
-Theorem c17_results_published_before_signal : forall pe tm cr progs x, creachable pe tm cr progs x ->
-  (close_done (csd x) = true -> close_err (csd x) = Some cr /\ conn_closed (csd x) = true /\ is_closing (cstate (csd x)) = true) /\
-  (hs_done (csd x) = true -> hs_runs (csd x) = 1) /\
-  (cstate (csd x) = sError -> cerr (csd x) <> 0%N).
-Proof. exact results_published_before_signal. Qed.
-Print Assumptions c17_results_published_before_signal.
 
 (* close-before-wait: once a Close has been elected, any state in which nothing can move has
    every call returned — even with a dead peer and no handshake timeout (the handshake's socket
